@@ -75,7 +75,7 @@ pub fn reference(c: &Circ) -> Tens {
 
 fn check_backend<Gr: GraphLike>(family: &'static str, index: u64, backend: &str, c: &Circ, expect: &Tens) {
     let cx = ctx();
-    let qc = to_quizx(c);
+    let qc = crate::gen::circuit::to_quizx_layout(c);
     for (simp, post, mname) in MODES {
         cx.count(&format!("mode:{mname}:{backend}"), 1);
         let r = guarded(|| qc.to_graph_with_options::<Gr>(simp, post));
